@@ -11,7 +11,7 @@ tests = {}   # (dir) -> {check: exit}
 verif = {}   # (dir) -> (a,b,c)
 
 def norm(path):
-    m = re.search(r'seed(?:ed)?[-/](C\d+)/(?:OUT/)?(\d+)', path) or re.search(r'\b(C\d+)/(\d+)\b', path)
+    m = re.search(r'seed(?:ed)?[-/]((?:C\d+|W2[a-f]))/(?:OUT/)?(\d+)', path) or re.search(r'\b((?:C\d+|W2[a-f]))/(\d+)\b', path)
     return f'{m.group(1)}/{m.group(2)}' if m else None
 
 for log in ['/var/tmp/mut/batch1.log', '/var/tmp/mut/batch2.log', '/var/tmp/mut/queue.log']:
@@ -39,7 +39,7 @@ for log in ['/var/tmp/mut/verify1.log', '/var/tmp/mut/vqueue.log']:
             verif[cur] = tuple(int(x) for x in m.groups())
 
 rows = []
-for meta_path in sorted(glob.glob(f'{ROOT}/C*/*/meta.json'), key=lambda p: (p.split('/')[-3], int(p.split('/')[-2]))):
+for meta_path in sorted(glob.glob(f'{ROOT}/[CW]*/*/meta.json'), key=lambda p: (p.split('/')[-3], int(p.split('/')[-2]))):
     d = os.path.dirname(meta_path)
     key = '/'.join(d.split('/')[-2:])
     try:
